@@ -1,9 +1,10 @@
 #!/usr/bin/env python3
 """Re-run the checks against the stored corpus of behaviour-preserving refactorings (/verif/refactors). Any exit 1 is a
-FALSE ALARM. usage: refcheck.py [pattern]   (4 patches in parallel, each in its own scratch worktree under /tmp/rw)"""
+FALSE ALARM. usage: refcheck.py [pattern] [--kani] [--retry]   (4 patches in parallel, each in its own scratch worktree under /tmp/rw)"""
 import concurrent.futures as cf, glob, json, os, re, subprocess, sys
 args = [a for a in sys.argv[1:] if not a.startswith("--")]
 pat = args[0] if args else ""
+KANI = "--kani" in sys.argv  # also run the Kani harnesses (slow: one Kani build per scratch tree); default: Verus units + lints only
 RETRY = "--retry" in sys.argv  # re-run, one at a time, only the (patch, property) pairs that were not 0 in last_run.json
 ONLY = {}
 if RETRY:
@@ -37,7 +38,7 @@ def one(it):
         if ONLY.get(name):
             props = set(ONLY[name])
         for c in sorted(props):
-            x = subprocess.run(["./check", c], cwd="/verif", env=dict(os.environ, VERIF_REPO=wt, VERIF_JOBS="3"), stdout=subprocess.PIPE, stderr=subprocess.PIPE, text=True)
+            x = subprocess.run(["./check", c], cwd="/verif", env=dict(os.environ, VERIF_REPO=wt, VERIF_JOBS="3", VERIF_SKIP_KANI="0" if KANI else "1"), stdout=subprocess.PIPE, stderr=subprocess.PIPE, text=True)
             out[c] = x.returncode
             if x.returncode != 0:
                 why[c] = [l.strip()[:300] for l in (x.stderr + x.stdout).split("\n") if l.startswith(("UNDECIDED", "VIOLATION")) or "failed obligation" in l][:6]
